@@ -1,5 +1,6 @@
 """C02 — forward and reverse linear operators are exact adjoints."""
 import copy
+import json
 import random
 import warnings
 from fractions import Fraction
@@ -253,6 +254,12 @@ class C02(Property):
         if 'error' in impl:
             return {'what': 'setup/run raised %s' % impl['error'], 'msg': impl.get('msg')}
         tol = self._tol(case)
+        # products through linear solves are accurate to cond x eps of the linearised system at best
+        md0, _ = self._md(case)
+        cond = gm.system_cond(md0, ('c02', case['gen_seed'], json.dumps(case['opts'], sort_keys=True)))
+        if cond > 1e11:
+            return None
+        tol = max(tol, 1e-14 * cond)
         for t in impl['tests']:
             ttol = max(tol, 1e-7) if t['name'] in ('solve_linear', 'solve_linear_multiple', 'jacvec', 'jacvec_vs_totals') else RTOL
             if not abs(t['lhs'] - t['rhs']) <= ttol * max(1.0, t['scale']):
